@@ -24,6 +24,8 @@ func main() {
 	_ = fs.Set("logtostderr", "false")
 	_ = fs.Set("alsologtostderr", "false")
 	_ = fs.Set("stderrthreshold", "FATAL")
+	// the verbosity the shipped docker-compose file runs with: code behind klog.V(n) runs here too
+	_ = fs.Set("v", "2")
 	if f := os.Getenv("VERIF_KLOG"); f != "" {
 		_ = fs.Set("log_file", f)
 	} else {
